@@ -629,6 +629,13 @@ class Fn(object):
                         return None
                 elif got and got[0] == 'e' and c == 0 and op in ('==', '!='):
                     derive(exprs[got[1]], op == '!=', extra)
+            if r is not None and is_var(r[0]) and r[0]['name'] in dict(rc) and const_of(r[2]) is None and isinstance(r[2], dict):
+                # `ii = find(...)` where find returned `table.used` ("not found"), then `if (ii >= table.used) return;`:
+                # the variable IS that expression, so a relation that contradicts equality is infeasible
+                got = dict(rc).get(r[0]['name'])
+                if got and got[0] == 'e' and sx(exprs[got[1]]) == sx(r[2]) and not any(k.get('k') == 'callref' for k in walk(r[2])):
+                    if r[1] in ('!=', '<', '>'):
+                        return None
             u = on_edge(user, e) if on_edge else user
             if u is None:
                 return None
